@@ -137,11 +137,48 @@ def replay_with(unit_fn: Callable[[Any], Part], case: Any, prop: Optional[str] =
         if not line:
             raise HarnessError("replay subprocess failed: " + r.stderr[-800:])
         return [tuple(x) for x in json.loads(line[-1][len("SUBRESULT "):])]
+    if case.get("unit_replay"):
+        # the case needs the other descriptions of its unit (state shared between objects): run the whole unit
+        ur = case["unit_replay"]
+        units = _UNITS[prop](ur["tier"] == "quick") if prop in _UNITS else []
+        pid = case["program"]["pid"]
+        unit = units[ur["index"]] if ur["index"] < len(units) and any(p["pid"] == pid for p in units[ur["index"]][1]) else \
+            next((u for u in units if any(p["pid"] == pid for p in u[1])), None)
+        if unit is None:
+            return []
+        part = unit_fn(unit)
+        return [(k, v[2]) for k, v in part.viol.items()]
     prog = case_prog(case["program"], case.get("values"))
     if "pdu" in case:
         prog["pdus"] = [bytes.fromhex(case["pdu"])]
     part = unit_fn(("replay", [prog]))
     return [(k, v[2]) for k, v in part.viol.items()]
+
+
+_UNITS: Dict[str, Callable[[bool], List[Any]]] = {}
+
+
+def make_contextualize(prop: str, units_for: Callable[[bool], List[Any]]) -> Callable[[Any, Any], Any]:
+    """Register how the property's units are generated; returns the hook run_check uses to widen a case that does not
+    reproduce on a layer of its own to the whole unit it was found in."""
+    _UNITS[prop] = units_for
+    index: Dict[bool, Dict[str, Tuple[int, str]]] = {}
+
+    def contextualize(case: Any, ctx: Any) -> Any:
+        pid = (case.get("program") or {}).get("pid") if isinstance(case, dict) else None
+        if pid is None or case.get("unit_replay"):
+            return None
+        if ctx.quick not in index:  # (generating the units is expensive: once per run)
+            index[ctx.quick] = {}
+            for idx, (name, progs) in enumerate(units_for(ctx.quick)):
+                for p in progs:
+                    index[ctx.quick].setdefault(p["pid"], (idx, name))
+        hit = index[ctx.quick].get(pid)
+        if hit is None:
+            return None
+        return dict(case, unit_replay={"unit": hit[1], "index": hit[0], "tier": ctx.tier})
+
+    return contextualize
 
 
 # ---------------------------------------------------------------------------------------------
